@@ -481,7 +481,9 @@ pub(crate) fn from_container_unit(
 
     // Default to no higher level privileges or caps
     if let Some(seccomp_profile) = container.lookup_last(CONTAINER_SECTION, "SeccompProfile") {
-        podman.add_slice(&["--security-opt", &format!("seccomp={seccomp_profile}")])
+        if !seccomp_profile.is_empty() {
+            podman.add_slice(&["--security-opt", &format!("seccomp={seccomp_profile}")])
+        }
     }
 
     for caps in container.lookup_all_strv(CONTAINER_SECTION, "DropCapability") {
@@ -1231,7 +1233,9 @@ pub(crate) fn from_volume_unit(
     podman.add("create");
     podman.add("--ignore");
 
-    let driver = volume.lookup(VOLUME_SECTION, "Driver");
+    let driver = volume
+        .lookup(VOLUME_SECTION, "Driver")
+        .filter(|driver| !driver.is_empty());
     if let Some(driver) = driver.as_deref() {
         podman.add("--driver");
         podman.add(driver);
@@ -1406,8 +1410,10 @@ fn handle_image_source<'a>(
 
 fn handle_log_driver(unit_file: &SystemdUnit, section: &str, podman: &mut PodmanCommand) {
     if let Some(log_driver) = unit_file.lookup_last(section, "LogDriver") {
-        podman.add("--log-driver");
-        podman.add(log_driver);
+        if !log_driver.is_empty() {
+            podman.add("--log-driver");
+            podman.add(log_driver);
+        }
     }
 }
 
